@@ -16,7 +16,7 @@ from ..gen import c17_nets as G
 PID = "C17"
 KNOWN_LP_KEY = "stoich._positive_conservation_law_from_basis:LP-branch:false-negative"
 COQ_HEADER = ("From Coq Require Import List NArith ZArith.\nImport ListNotations.\n"
-              "From SK Require Import lib.Tok lib.C17_Farkas model.C17_Model.\n")
+              "From SK Require Import lib.Tok lib.C17_Farkas model.C17_Model model.C17_NodeModel.\n")
 SHARD = 250
 IMPL_TIMEOUT = 2400
 COQ_TIMEOUT = 1500
@@ -34,7 +34,8 @@ EXPLANATION = ("quick: ALL sets of 1..2 reactions over the 90 reactions between 
 TRUSTED_BASE = [
     "Coq 8.16.1 kernel + vm_compute (no native_compute)",
     "MathComp 1.15 (\\rank over rat) and mathcomp.zify ssrZ for the list-to-matrix bridge (lib/RankBridge.v), axiom-free",
-    "hand-written model coq/model/C17_Model.v tied to stoich.py/utils.py/conversion.py by the per-run correspondence",
+    "hand-written models coq/model/C17_Model.v (label level) and coq/model/C17_NodeModel.v (node-identifier level; evaluated on the node "
+    "ids of the graph the implementation really used) tied to stoich.py/utils.py/conversion.py by the per-run correspondence",
     "harness encoders harness/props/C17.py (case -> Gallina literal; numpy arrays -> integers) and the tok digest",
     "numpy/scipy numerics are NOT trusted and NOT modelled: their integer/boolean outputs are compared per input with certified exact values",
     "the certificate finders (harness/gen/c17_exact.py: integer echelon factorisation, exact Fraction simplex) are untrusted; only the Coq checkers are",
@@ -49,12 +50,14 @@ TESTED_NOT_PROVED = [
     "existence of a certificate (hard direction of Stiemke): the finder produced a checked certificate for every generated input",
     "integer_conservation_laws: count = species - rank (oracle); exact annihilation share is reported in the distribution only",
     "a hypergraph analysed, edited (reactions added) and analysed again gives the analysis of the edited network (oracle only, hypergraph view)",
-    "caller-supplied bipartite graphs whose node ids are unrelated to the labels (views bip_perm / bip_sperm): compared per run with the model, "
-    "in which node ids do not exist — the theorem about build_S is stated on the labelled network",
+    "that a caller-supplied graph IS the export of some network under an injective identifier assignment (views bip_perm / bip_sperm are "
+    "built that way by the harness; C17_S_node_ids covers exactly such graphs)",
 ]
 LEVEL_TEXT = ("Machine-checked proof (Coq) that the model of build_S has one row per species (sorted labels), one column per reaction "
               "(stable order by rule label then id), entry = produced - consumed, and equals the network's own incidence matrix up to that "
-              "column order, for every network; and that the executable rank / positive-kernel certificate checkers are sound for every "
+              "column order, for every network; that the identifier-level computation the code really performs (nodes sorted by label, row / "
+              "column looked up by node identifier, matrices filled arc by arc) gives exactly these labels and matrices for every injective "
+              "assignment of node identifiers (two-digit, permuted, string or integer); and that the executable rank / positive-kernel certificate checkers are sound for every "
               "integer matrix (rank over the rationals via MathComp, Stiemke alternative for conservativity and consistency). The float "
               "results of the implementation (rank, kernel dimensions, verdicts) are compared on every run with certified exact values on an "
               "exhaustive small scope plus random and textbook networks; float bases and witnesses are tolerance-tested.")
@@ -271,9 +274,33 @@ def coq_case(case):
         import warnings
         warnings.filterwarnings("ignore")
         nm = trace_numerics(view_of(case, build(case)))
-    return "run %s %s %s %s %s (Num %s %s %s %s)" % (
+    sid, rids = node_ids(case)
+    return "run_ids %s %s %s %s %s (Num %s %s %s %s) %s %s" % (
         cnet(case), clist([_cstr(z) for z in case.get("iso", [])]), crcert(rc), cfcert(*cc), cfcert(*fc),
-        cbool(nm["scanL"]), cbool(nm["lpL_ok"]), cnat(nm["lpR"]), cbool(nm["scanR"]))
+        cbool(nm["scanL"]), cbool(nm["lpL_ok"]), cnat(nm["lpR"]), cbool(nm["scanR"]),
+        clist([cN(x) for x in sid]), clist([cN(x) for x in rids]))
+
+
+def node_ids(case):
+    """The node identifiers of the graph the implementation really works on (view of the case), as numbers: integers
+    as they are, strings interned (identifiers are only ever compared for equality).  Species identifiers in the order
+    of sorted(H.species), reaction identifiers in the order of sorted(edge ids) — the node order of the export, which
+    relabelling keeps."""
+    import networkx as nx
+    from synkit.CRN.Hypergraph.conversion import _as_bipartite
+    if not case["rxns"]:
+        return [], []
+    Gv = _as_bipartite(view_of(case, build(case)))
+    intern = {}
+
+    def num(u):
+        if isinstance(u, int) and not isinstance(u, bool):
+            return 2 * u
+        return 2 * intern.setdefault(u, len(intern)) + 1
+    sp = [(d["label"], num(u)) for u, d in Gv.nodes(data=True) if d.get("kind") == "species"]
+    rx = [num(u) for u, d in Gv.nodes(data=True) if d.get("kind") == "reaction"]
+    assert [l for l, _ in sp] == sorted(l for l, _ in sp)
+    return [k for _, k in sp], rx
 
 
 # ------------------------------------------------------------------ property oracle
